@@ -10,6 +10,7 @@ PROPS = {
             {"engine": "reply", "args": ["-mode", "seq"], "n_quick": 1200, "n_thorough": 60000, "netns": True},
             {"engine": "reply", "args": ["-mode", "conc"], "n_quick": 1500, "n_thorough": 150000, "netns": True},
             {"engine": "reply", "args": ["-mode", "tcpstorm"], "n_quick": 25, "n_thorough": 1500, "netns": True},
+            {"engine": "reply", "args": ["-mode", "tcpstall"], "n_quick": 3, "n_thorough": 60, "netns": True},
             {"engine": "resolver", "args": ["-mode", "e2e"], "n_quick": 900, "n_thorough": 60000, "netns": True},
         ],
         "trivial_tags": [r"/small"],
@@ -283,6 +284,7 @@ PROPS = {
                       "compile": ["Gen/SrcConsts.v", "Properties/C05_consts.v"], "theorem": "C05_consts_agree"},
         "runs": [
             {"engine": "reply", "args": ["-mode", "c05"], "n_quick": 150, "n_thorough": 20000, "netns": True},
+            {"engine": "reply", "args": ["-mode", "tcpstall"], "n_quick": 3, "n_thorough": 60, "netns": True},
         ],
         "rule": "boundary lattice of (advertised EDNS size, upstream length) plus n random pairs, each over UDP "
                 "and TCP through the real proxy; distinct = distinct (query bytes, upstream spec, proto); "
@@ -291,7 +293,7 @@ PROPS = {
                         "the fake resolver.Resolver stands for the resolver layer (DoH/DNS53 are covered by C03/C06/C07)"],
     },
     "C20": {
-        "proof_files": ["Proofs/RouterFacts.v", "Proofs/RouterOpenwrt.v"],
+        "proof_files": ["Proofs/RouterFacts.v", "Proofs/RouterOpenwrt.v", "Proofs/RouterDisk.v", "Proofs/RouterFault.v"],
         "runs": [{"engine": "router", "args": [], "n_quick": 1600, "n_thorough": 80000, "netns": True, "mountns": True}],
         "trivial_tags": [r"^generic/"],
         "rule": "the real router.New() (firewalla: firewalla.New()) / Configure / Setup / Restore of all eight firmware packages run in a chroot "
